@@ -387,7 +387,7 @@ func (c *Case) exec(main string, setup string, sfx string, solo bool) runOut {
 	}
 	size := c.P*c.N*(1+len(c.Cons)) + c.R*c.Iter + 3*len(c.Work) + 4
 	cfg := sched.Config{Policy: c.Policy, SwitchPct: c.SwitchPct, YieldPct: c.YieldPct, PCTDepth: c.PCTDepth,
-		PCTHorizon: 400 * size, TimeJumpPct: c.TimeJumpPct, Salt: c.Salt, Budget: 60000*size + 400000}
+		PCTHorizon: 400 * size, TimeJumpPct: c.TimeJumpPct, Salt: c.Salt, Budget: 4000*size + 60000}
 	var out runOut
 	intTask, intDone, insideCS, csYields := -1, false, -1, 0
 	if c.Scen == "s2" && !solo {
